@@ -12,6 +12,7 @@ import (
 	"net/url"
 	"strconv"
 	"sync"
+	"sync/atomic"
 	"time"
 
 	"github.com/rs/dnscache"
@@ -296,7 +297,7 @@ func ConnectTo(addrMap map[string][]string) func(*Attacker) {
 
 		type roundRobin struct {
 			addrs []string
-			n     int
+			n     uint64
 		}
 
 		connectTo := make(map[string]*roundRobin, len(addrMap))
@@ -306,8 +307,8 @@ func ConnectTo(addrMap map[string][]string) func(*Attacker) {
 
 		tr.DialContext = func(ctx context.Context, network, addr string) (net.Conn, error) {
 			if cm, ok := connectTo[addr]; ok {
-				cm.n = (cm.n + 1) % len(cm.addrs)
-				addr = cm.addrs[cm.n]
+				n := atomic.AddUint64(&cm.n, 1)
+				addr = cm.addrs[n%uint64(len(cm.addrs))]
 			}
 			return dial(ctx, network, addr)
 		}
@@ -349,6 +350,7 @@ func DNSCaching(ttl time.Duration) func(*Attacker) {
 				}()
 			}
 
+			var rngmu sync.Mutex // rand.Rand is not safe for concurrent use
 			rng := rand.New(rand.NewSource(time.Now().UnixNano()))
 
 			tr.DialContext = func(ctx context.Context, network, addr string) (conn net.Conn, err error) {
@@ -371,7 +373,9 @@ func DNSCaching(ttl time.Duration) func(*Attacker) {
 
 				// ips is the cache's own slice: shuffle and filter a copy of it.
 				ips = append([]string(nil), ips...)
+				rngmu.Lock()
 				rng.Shuffle(len(ips), func(i, j int) { ips[i], ips[j] = ips[j], ips[i] })
+				rngmu.Unlock()
 
 				ips = firstOfEachIPFamily(ips)
 
